@@ -703,6 +703,8 @@ func main() {
 		e1b(kind)
 	}
 	e2()
+	e3()
+	res.Info["E3"] = "through ModelDiscoveryService.DiscoverEndpoint with per-endpoint include/exclude filters: 6 x 6 filter pairs x all histories to depth 3 (4 thorough) over {endpoint lists any listing of size <=2 over m1,m2,n1; its discovery fails; it is removed} on 2 endpoints"
 	res.Info["bounds"] = map[string]any{"full_alphabet": "m1, m1 (other digest), M1, m2, a::b, x*; listings of size <=2 plus [valid,\"\"] and [nil,valid]; 2 endpoints; depth " + fmt.Sprint(depthFull),
 		"small_alphabet": "m1, m1 (other digest), m2; 3 endpoints; depth " + fmt.Sprint(depthSmall), "async": "all ordered pairs of operations (first on e1) over {m1,m2} x 2 endpoints, preemption bound 2",
 		"state_dedup": "none (registry private indexes could differ behind equal views)"}
